@@ -99,13 +99,24 @@ class Mask(AbstractNDArray, ABC):
         -------
         A dictionary containing the pixel scale of the mask, which can be output to a .fits file.
         """
-        try:
-            return {"PIXSCALE": self.pixel_scale}
-        except exc.MaskException:
+        if len(self.pixel_scales) == 2 and self.pixel_scales[0] != self.pixel_scales[1]:
             return {
                 "PIXSCALEY": self.pixel_scales[0],
                 "PIXSCALEX": self.pixel_scales[1],
             }
+
+        return {"PIXSCALE": self.pixel_scale}
+
+    @staticmethod
+    def pixel_scales_from_header(header) -> ty.PixelScales:
+        """
+        Returns the pixel scales stored in a .fits header by `pixel_scale_header`, which is either a single `PIXSCALE`
+        entry or, if the pixel scales differ in the two dimensions, a `PIXSCALEY` and `PIXSCALEX` pair.
+        """
+        if "PIXSCALE" in header:
+            return header["PIXSCALE"]
+
+        return (header["PIXSCALEY"], header["PIXSCALEX"])
 
     @property
     def dimensions(self) -> int:
